@@ -3,7 +3,7 @@
 TLC: (width) every combination of auto / fixed / negative margins, auto / fixed / percentage width, paddings, borders,
 min- / max-width and box-sizing in a 40px containing block: the used values of 10.3.3 + 10.4 satisfy the width equation
 (WidthOK); (vertical) every forest of <= 2 nested in-flow blocks (thorough: + seeded simulation of 3-4 boxes) over margins
-{-3, 0, 5}, top/bottom borders and heights {auto, 0, 4}: positions by margin collapsing (8.3.1), HeightsOK.
+{-3, 0, 5}, top/bottom borders, heights {auto, 0, 4} and min-height {0, 3} on childless boxes: positions by margin collapsing (8.3.1), HeightsOK.
 Binding: every scenario is laid out by layout.Layout on one tall page and the used margins / width / x resp. the border
 box y / height of every box must equal the specification's integers (1/64 px).
 Variant: vertical margins spelled as percentages of the containing block's width (100px).
@@ -56,9 +56,9 @@ def run(ctx):
     ctx.traces = total
     return ctx.finish("model_checking", {
         "exhaustive": True, "evaluations": total, "distinct_nontrivial": total, "scenario_counts": counts,
-        "rule": "width: 2316 combinations of the seven horizontal quantities, min/max and box-sizing; vertical: all 23 436 forests of <= 2 boxes "
-                "(2 shapes x 108^2 property assignments), plus seeded random forests of 3-4 boxes (thorough: up to 5) built by AddSibling / WrapLast / WrapTwo",
+        "rule": "width: 2316 combinations of the seven horizontal quantities, min/max and box-sizing; vertical: all 70 200 forests of <= 2 boxes "
+                "(margins, top/bottom borders, heights, min-height on leaves), plus seeded random forests of 3-4 boxes (thorough: up to 5) built by AddSibling / WrapLast / WrapTwo",
     }, assumptions=[
-        "left-to-right, integer lengths, no floats / clearance / min-height; a box whose margins collapse through it is not compared (its position is an 'as if' clause)",
+        "left-to-right, integer lengths, no floats / clearance; min-height on childless boxes only; a box whose margins collapse through it is not compared (its position is an 'as if' clause)",
         "paddings behave like borders for collapsing and are represented by borders in the vertical scenarios",
     ])
